@@ -40,7 +40,7 @@ func main() {
 		workerMain()
 		return
 	}
-	r := ev.Start("C12", "model_checking", 55*time.Second, 15*time.Minute)
+	r := ev.Start("C12", "model_checking", 65*time.Second, 15*time.Minute)
 	r.Rule = "full product of per-route menus: G1 route x query menu (valid, one per grammar production, every <=3-symbol string over a 10-symbol alphabet, single-token deletions) ; G2 route x representative queries x full product of start/end/step/limit/direction/time/duration value menus ; G3 route x representative queries x result-set shape x every (statement index, fault kind, row position) ; a case is distinct by (route, query, params, driver script), non-trivial when the request reached the database (>=1 statement) or was answered with an error by the real handler"
 	r.Assumptions = []string{
 		"the database is a scripted database/sql driver returning clickhouse-go value types; statement shapes are recognised by their output column list",
